@@ -16,7 +16,7 @@ def main(argv):
     res = {'shard': shard, 'san': san, 'crysp_path': os.path.dirname(crysp.__file__), 'status': 'ok'}
     # oracle self-test first: a broken oracle makes the run inconclusive, never a violation
     try:
-        if hasattr(mod, 'selftest') and shard == 0:
+        if hasattr(mod, 'selftest') and shard == 0 and not san:
             res['selftest'] = mod.selftest() or 'ok'
     except core.CaseTimeout:
         raise
